@@ -511,6 +511,7 @@ import logging                                                        # noqa: E4
 
 class PName:
     """a name as seen by the table code: emptiness and the type of its last component are symbolic"""
+    opaque_value = True          # stands for an unknown value of a library type: foreign contracts do not know it
 
     def __init__(self, run, label, stripped_of=None):
         self.run, self.label, self.stripped_of = run, label, stripped_of
